@@ -764,12 +764,143 @@ Proof.
   intros [f' Hf] (fd & Hfd & Hin). destruct (fun_facts _ _ Hf) as (fd0 & fd' & A & _ & _ & Hcode).
   rewrite Hfd in A. inv A.
   assert (G : forall i, In i (xf_code fd0) -> exists j, instr_ok rho X i j = true).
-  { clear -Hcode. induction Hcode as [|a b l l' Hab _ IH]; intros i [->|Hi]; eauto. }
+  { clear -Hcode. induction Hcode as [|a b l l' Hab _ IH]; intros i Hi; [destruct Hi | destruct Hi as [->|Hi]; eauto]. }
   destruct Hin as [Hin|[pid Hin]]; destruct (G _ Hin) as [j Hj]; apply instr_ok_inv in Hj; cbv beta iota in Hj;
     destruct Hj as (g' & Hg & _); eauto.
 Qed.
 
 Lemma reachable_mapped f g : reachable f g -> (exists f', app (r_f rho) f = Some f') -> exists g', app (r_f rho) g = Some g'.
-Proof. induction 1; intros H0; [exact H0 | eapply refers_mapped; eauto]. Qed.
+Proof. induction 1 as [f|f g h Hfg IH Hgh]; intros Hm; [exact Hm | apply (refers_mapped g h (IH Hm) Hgh)]. Qed.
 
 End SIM.
+
+(* ------------------------------------------------------------------ the theorems of C10 *)
+
+(* Running any mapped function (in particular every function reachable from the entry, see
+   `renaming_covers_reachable`) on related arguments, with related outside inputs, gives related
+   results step for step: the same fault, or related next states / final values — with the IsType
+   and Equal verdicts computed from each program's own type_compatibility / canonical_tuples. *)
+Theorem renaming_simulation rho X X' : is_renaming rho X X' = true ->
+  forall bin_eq f f' caps caps' arg arg' pers xs xs',
+  app (r_f rho) f = Some f' -> Forall2 (vrel rho) caps caps' -> vrel rho arg arg' ->
+  Forall2 (xvrel rho) xs xs' ->
+  rrel rho (xrun X bin_eq (init_state f caps arg pers) xs)
+           (xrun X' bin_eq (init_state f' caps' arg' pers) xs').
+Proof.
+  intros HR beq f f' caps caps' arg arg' pers xs xs' Hf Hc Ha Hx.
+  apply (xrun_sim rho X X' HR beq xs xs' Hx). apply init_rel; assumption.
+Qed.
+
+(* the same with every verdict an outside input (vm/Vm.v as it stands, vm/WfRun.v's `run`) *)
+Theorem renaming_simulation_ext rho X X' : is_renaming rho X X' = true ->
+  forall s s' xs xs', srel rho s s' -> Forall2 (xrel rho) xs xs' ->
+  rrel rho (run (project X) s xs) (run (project X') s' xs').
+Proof. intros HR s s' xs xs' HS Hx. apply (run_sim rho X X' HR xs xs' Hx). exact HS. Qed.
+
+Theorem renaming_covers_reachable rho X X' : is_renaming rho X X' = true ->
+  app (r_f rho) (x_entry X) = Some (x_entry X') /\
+  forall f, reachable X (x_entry X) f -> exists f', app (r_f rho) f = Some f'.
+Proof.
+  intros HR. pose proof (the_facts rho X X' HR) as FX. split; [exact (F_entry _ _ _ FX)|].
+  intros f Hf. eapply (reachable_mapped rho X X' HR); eauto. exists (x_entry X'). exact (F_entry _ _ _ FX).
+Qed.
+
+(* the side condition, stated on its own: on related values the real tables give the same verdicts *)
+Theorem verdicts_commute rho X X' : is_renaming rho X X' = true ->
+  (forall v v' y y' w, vrel rho v v' -> app (r_y rho) y = Some y' -> row_of X y = Some w ->
+     istype_verdict X v y = istype_verdict X' v' y') /\
+  (forall bin_eq vs vs', Forall2 (vrel rho) vs vs' -> equal_verdict X bin_eq vs = equal_verdict X' bin_eq vs').
+Proof.
+  intros HR. split.
+  - intros. eapply (istype_agree rho X X' HR); eauto.
+  - intros. apply (equal_agree rho X X' HR). assumption.
+Qed.
+
+(* ------------------------------------------------------------------ non-vacuity *)
+Module Examples.
+(* names as bytes *)
+Definition s_ok : str := [79; 107]%Z.
+Definition s_p : str := [80]%Z.
+Definition s_q : str := [81]%Z.
+Definition s_x : str := [120]%Z.
+
+(* source: a dead function 0, a helper 1, the entry 2; tuple P[x: int]; `IsType` against P *)
+Definition exX : xprogram := {|
+  x_consts := [XInt 7; XInt 5];
+  x_funcs := [ {| xf_code := [IConstant 0]; xf_caps := 0; xf_type := 2 |};
+               {| xf_code := [IPop; ILoad 0]; xf_caps := 1; xf_type := 2 |};
+               {| xf_code := [IPop; IConstant 1; IFunction 1; IStore; IConstant 1; ILoad 0; ICall; ITuple 2; IDuplicate; IIsType 1; IPop]; xf_caps := 0; xf_type := 2 |} ];
+  x_tuples := [ {| xt_name := None; xt_fields := [] |}; {| xt_name := Some s_ok; xt_fields := [] |};
+                {| xt_name := Some s_p; xt_fields := [(Some s_x, 0)] |} ];
+  x_types := [TInt; TTuple 2; TCallable 0 0 3; TUnion []];
+  x_builtins := [];
+  x_resources := [];
+  x_entry := 2;
+  x_rows := [None; Some {| w_int := false; w_bin := false; w_ref := false; w_tuples := [false; false; true];
+                           w_funs := []; w_builtins := []; w_procs := []; w_res := [] |}; None; None];
+  x_canon := [0; 1; 2]
+|}.
+
+(* target: the dead function and its constant are gone, everything else has moved (as after a
+   tree-shake followed by a merge behind a program that owns tuple Q and the type `never`) *)
+Definition exX' : xprogram := {|
+  x_consts := [XInt 5];
+  x_funcs := [ {| xf_code := [IPop; ILoad 0]; xf_caps := 1; xf_type := 3 |};
+               {| xf_code := [IPop; IConstant 0; IFunction 0; IStore; IConstant 0; ILoad 0; ICall; ITuple 3; IDuplicate; IIsType 2; IPop]; xf_caps := 0; xf_type := 3 |} ];
+  x_tuples := [ {| xt_name := None; xt_fields := [] |}; {| xt_name := Some s_ok; xt_fields := [] |};
+                {| xt_name := Some s_q; xt_fields := [] |}; {| xt_name := Some s_p; xt_fields := [(Some s_x, 1)] |} ];
+  x_types := [TUnion []; TInt; TTuple 3; TCallable 1 1 0];
+  x_builtins := [];
+  x_resources := [];
+  x_entry := 1;
+  x_rows := [None; None; Some {| w_int := false; w_bin := false; w_ref := false; w_tuples := [false; false; false; true];
+                                 w_funs := []; w_builtins := []; w_procs := []; w_res := [] |}; None];
+  x_canon := [0; 1; 2; 3]
+|}.
+
+Definition ex_rho : renaming := {|
+  r_c := [None; Some 0]; r_f := [None; Some 0; Some 1]; r_t := [Some 0; Some 1; Some 3];
+  r_y := [Some 1; Some 2; Some 3; Some 0]; r_b := []; r_r := [];
+  i_f := [Some 1; Some 2]; i_b := []
+|}.
+
+Example ex_accepts : is_renaming ex_rho exX exX' = true.
+Proof. vm_compute. reflexivity. Qed.
+
+(* the validator is not trivially true: a target whose constant differs is rejected, and so is a
+   non-injective function map *)
+Example ex_rejects_constant :
+  is_renaming ex_rho exX (with_consts exX' [XInt 6]) = false.
+Proof. vm_compute. reflexivity. Qed.
+
+Example ex_rejects_row :
+  is_renaming ex_rho exX
+    {| x_consts := x_consts exX'; x_funcs := x_funcs exX'; x_tuples := x_tuples exX'; x_types := x_types exX';
+       x_builtins := []; x_resources := []; x_entry := 1;
+       x_rows := [None; None; Some {| w_int := false; w_bin := false; w_ref := false; w_tuples := [false; false; true; false];
+                                      w_funs := []; w_builtins := []; w_procs := []; w_res := [] |}; None];
+       x_canon := x_canon exX' |} = false.
+Proof. vm_compute. reflexivity. Qed.
+
+Definition quiet : ext := {| x_value := None; x_bool := false |}.
+
+(* both programs run to completion from their entries; the results are related (P[5] under ids 2 / 3) *)
+Example ex_runs :
+  xrun exX (fun _ _ => false) (init_state 2 [] vnil false) (repeat quiet 16) =
+    Finished (VTuple 2 [VInt 5]) {| stack := []; locals := []; frames := []; persistent := false |} /\
+  xrun exX' (fun _ _ => false) (init_state 1 [] vnil false) (repeat quiet 16) =
+    Finished (VTuple 3 [VInt 5]) {| stack := []; locals := []; frames := []; persistent := false |}.
+Proof. split; vm_compute; reflexivity. Qed.
+
+(* the hypotheses of renaming_simulation are met by this instance *)
+Example ex_simulation_applies :
+  rrel ex_rho (xrun exX (fun _ _ => false) (init_state 2 [] vnil false) (repeat quiet 16))
+              (xrun exX' (fun _ _ => false) (init_state 1 [] vnil false) (repeat quiet 16)).
+Proof.
+  apply (renaming_simulation ex_rho exX exX' ex_accepts).
+  - reflexivity.
+  - constructor.
+  - constructor; [reflexivity | constructor].
+  - repeat constructor.
+Qed.
+End Examples.
